@@ -38,6 +38,13 @@ let res_str (r : rares) : string =
     Printf.sprintf "ok,found=%d,meta=%s,hs=%s,n=%d,last=%s,md5=%s"
       (if found then 1 else 0) (token_of_opt m) (hs_str h) (List.length es) last (md5 (ents_canon es))
 
+let short_res (r : rares) : string =
+  match r with
+  | RAErr c -> "err:" ^ class_name c
+  | RAOk (_, _, es, _) ->
+    let last = match List.rev es with [] -> "0" | e :: _ -> hexnum_of_n e.e_index in
+    Printf.sprintf "ok/%d/%s/%s" (List.length es) last (md5 (ents_canon es))
+
 let vres_str (r : rares) : string =
   match r with
   | RAErr c -> "err:" ^ class_name c
@@ -118,6 +125,7 @@ let run_wal infile outfile oraclefile =
   let dirs : (string, dirinfo) Hashtbl.t = Hashtbl.create 64 in
   (* cache: pristine record lists per (did, si) *)
   let pristine : (string * string, (wrec list list * wrec list) option) Hashtbl.t = Hashtbl.create 64 in
+  let lives : (string, (string * string * string * string * string * string * wop list ref)) Hashtbl.t = Hashtbl.create 64 in
   let oc = open_out_bin outfile and oo = open_out_bin oraclefile in
   let get_dir did = let d = Hashtbl.find dirs did in List.rev d.files in
   let get_pristine did sihex si =
@@ -224,6 +232,46 @@ let run_wal infile outfile oraclefile =
          Printf.fprintf oo "O %s kind=M oracle=%s oracle2=%s part=%s rec=%d rtype=%s\n" cid
            (oracle_of si st written 0 r)
            (match r2 with Some x -> oracle_of si st written 0 x | None -> "na") p k rt)
+    | ["L2"; cid; did; xid; sihex; sthex; synced; sectors; _n] ->
+      Hashtbl.replace lives cid (did, xid, sihex, sthex, synced, sectors, ref [])
+    | "L2OP" :: cid :: "OPSAVE" :: _wid :: term :: vote :: commit :: _nents :: ents ->
+      let (_, _, _, _, _, _, ops) = Hashtbl.find lives cid in
+      ops := OpSave ({ hs_term = n_of_hexnum term; hs_vote = n_of_hexnum vote; hs_commit = n_of_hexnum commit },
+                     parse_ents ents) :: !ops
+    | ["L2END"; cid] ->
+      (* two lives: life 1 = the crash image opened for append (after Repair when torn), life 2 =
+         the directory the real code left after appending the saves and closing, read again *)
+      let (did, xid, sihex, sthex, synced, sectors, ops) = Hashtbl.find lives cid in
+      let si = n_of_hexnum sihex and st = n_of_hexnum sthex in
+      let files = get_dir did in
+      let sy = n_of_int (int_of_string synced) in
+      let lost = if sectors = "-" then [] else
+          List.map (fun s -> n_of_int (int_of_string s)) (String.split_on_char ',' sectors) in
+      let img = mapi_last (fun (nm, c) -> (nm, crash_image_list sy lost c)) files in
+      let (_, ra, rb) = observe si st img in
+      let (r1, rep) = match rb with
+        | None -> (ra, "-")
+        | Some x -> (x, (if is_err ra then (let (ok, _) = repair_files (List.map file_bytes img) in if ok then "1" else "0") else "-")) in
+      if is_err r1 then
+        Printf.fprintf oc "R %s life1=%s repair=%s steps=- life2=-\n" cid (res_str r1) rep
+      else begin
+        let ops2 = List.rev !ops in
+        (* a restart after each appended save *)
+        let bad = ref (-1) in
+        let steps = List.mapi (fun i _ ->
+            let fl = get_dir (Printf.sprintf "x%s_%d" cid i) in
+            let r = match select_files fl si with
+              | None -> RAErr CBadType
+              | Some sel -> read_all true si st sel in
+            if !bad < 0 && not (second_life_ok r1 (take (i + 1) ops2) r) then bad := i;
+            short_res r) ops2 in
+        let final = get_dir xid in
+        let (line2, r2, _) = observe si st final in
+        Printf.fprintf oc "R %s life1=%s repair=%s steps=%s life2=%s\n" cid (res_str r1) rep (String.concat "|" steps) line2;
+        let fin_ok = second_life_ok r1 ops2 r2 in
+        Printf.fprintf oo "O %s kind=L second=%s nops2=%d badstep=%d\n" cid
+          (if !bad < 0 && fin_ok then "ok" else "BAD") (List.length ops2) !bad
+      end
     | ["T"; cid; did; sihex; sthex; fidx; size; synced] ->
       (* truncation image: file fidx ends after size bytes (C16_truncated_tail) *)
       let si = n_of_hexnum sihex and st = n_of_hexnum sthex in
